@@ -424,3 +424,110 @@ for _prop in ("C01", "C02"):
             _h.__doc__ = "inner domain abstract; motion constant or a row-wise function of the parameter"
             extra = [_cls + "._translate_points"] if _kind == "translate" else [_cls + "._rotate_points", _cls + "._rotate_grid"]
             scenario(_prop, [_cls + "." + _m] + extra, configs=(["const/none", "const/K", "fn/K"] if _m == "sample_random_uniform" else ["const/none", "fn/K"]))(_h)
+
+
+# ----------------------------------------------------------------------------- rejection sampling of cuts / intersections
+SH = D + "sampler_helper."
+
+
+def _inside_random_n(S, prop):
+    """CutDomain / IntersectionDomain.sample_random_uniform(n >= 2, params): sampler_helper._random_points_inside.
+    Loop contracts: outer loop over parameter rows (accumulated blocks [i, n]); inner rejection loop with the
+    invariant 'every index in index_valid points at a row of new_points that lies in A and (not) in B at the
+    current parameter row, number_valid = len(index_valid), scaled_n >= 1'.  Termination not proved."""
+    from .samplers import acc_points_loop
+    from tpv.spec import LoopSpec
+    from tpv.tlib import Tensor
+    from tpv.core import STensor
+
+    op = S.cfg
+    A, B, dom = mk_bool(S, op)
+    K = S.int("K", 1)
+    Tt = S.tensor("tt", [K, 1])
+    params = S.new(POINTS, Tt, S.new(R1, "t"))
+    n = S.int("n", 2)
+    invert = op == "cut"
+
+    def Pk(k, row):
+        tk = [zreal(Tt.val.at([(k,), ()]))]
+        inb = B.in_pred(row, tk)
+        return z3.And(A.in_pred(row, tk), z3.Not(inb) if invert else inb)
+
+    fq = SH + "_random_points_inside"
+
+    def make(I_, env, _):
+        which = I_.choose(2, "before-first-iteration-or-later")
+        sc = S.real(core.fresh_name("scaled"))
+        S.assume(sc.t >= 1)
+        env.vars["scaled_n"] = sc
+        env.vars["_"] = None
+        env.vars["repeat_params"] = None
+        if which == 0:
+            env.vars["number_valid"] = 0
+            env.vars.pop("new_points", None)
+            env.vars.pop("index_valid", None)
+            return
+        m = z3.Int(core.fresh_name("m"))
+        v = z3.Int(core.fresh_name("nvalid"))
+        I_.ctx.assume(z3.And(m >= 0, v >= 0, v <= m))
+        NP = S.tensor(core.fresh_name("NP"), [m, 2])
+        env.vars["new_points"] = S.new(POINTS, NP, S.new(R2, "x"))
+        ii = zint(env.lookup("i")[1])
+        f = z3.Function(core.fresh_name("ivalid"), z3.IntSort(), z3.IntSort())
+
+        def fn(idx):
+            j = zint(idx[0][0])
+            r = f(j)
+            row = [zreal(NP.val.at([(r,), (c,)])) for c in range(2)]
+            I_.ctx.axiom(z3.Implies(z3.And(j >= 0, j < v), z3.And(r >= 0, r < m, Pk(ii, row))))
+            return r
+
+        env.vars["index_valid"] = Tensor(STensor([Dim([v])], fn, "int"))
+        env.vars["number_valid"] = Sym(v, "int")
+
+    def check(I_, env, _, tag):
+        nv = env.vars.get("number_valid")
+        sc = env.vars.get("scaled_n")
+        S.ensure(f"rejection-loop/{tag}:scaled-n-at-least-one", zreal(sc) >= 1, kind="inv")
+        if isinstance(nv, int) and nv == 0 and "index_valid" not in env.vars:
+            return
+        iv, npnts = env.vars.get("index_valid"), env.vars.get("new_points")
+        ok = isinstance(iv, Tensor) and iv.val.rank == 1 and npnts is not None and hasattr(npnts, "f")
+        S.ensure(f"rejection-loop/{tag}:state-shape", ok, kind="inv")
+        if not ok:
+            return
+        S.ensure(f"rejection-loop/{tag}:number-valid-is-len-of-index", zint(nv) == iv.val.shape[0].size_term(), kind="inv")
+        NP = npnts.f["_t"].val
+        m = NP.shape[0].size_term()
+        ii = zint(env.lookup("i")[1])
+
+        def goal(q):
+            r = zint(iv.val.at(q))
+            return z3.And(r >= 0, r < m, Pk(ii, [zreal(NP.at([(r,), (c,)])) for c in range(2)]))
+
+        S.forall(f"rejection-loop/{tag}:every-valid-index-points-at-a-row-of-the-cut", iv, goal, kind="inv")
+
+    S.loop(fq, 0, acc_points_loop(S, "random_points", [("x", R2)], n, 2, lambda k, j, row: Pk(k, row), "parameter-loop", initial="empty"))
+    S.loop(fq, 1, LoopSpec(make, check, modifies=["scaled_n", "_", "repeat_params", "number_valid", "new_points", "index_valid"], label="rejection-loop"))
+    pts = S.method(dom, "sample_random_uniform", n, None, params)
+    t = tensor_of(pts)
+    ok = t.rank == 2 and t.shape[1].concrete() == 2
+    S.ensure("two-columns", ok)
+    if not ok:
+        return
+    grouped = len(t.shape[0].factors) == 2 and z3.eq(t.shape[0].factors[0], zint(K))
+    if prop == "C02":
+        S.ensure("n-rows-per-parameter-row", t.shape[0].size_term() == zint(K) * zint(n))
+        S.ensure("grouped-by-parameter-row", grouped)
+        return
+    S.ensure("row-structure", grouped)
+    if grouped:
+        S.forall("every-row-in-the-composite-set-at-its-own-parameter-row", t, lambda q: Pk(zint(q[0][0]), cols(t, q[0], 2)))
+
+
+for _prop in ("C01", "C02"):
+    def _k(S, _prop=_prop):
+        _inside_random_n(S, _prop)
+    _k.__name__ = "cut_intersection_random_n"
+    _k.__doc__ = _inside_random_n.__doc__
+    scenario(_prop, [SH + "_inside_random_with_n", SH + "_random_points_inside", SH + "_check_in_b", CUT + ".sample_random_uniform", INTER + ".sample_random_uniform"], configs=["cut", "intersection"])(_k)
